@@ -19,6 +19,8 @@ import (
 	txtypes "github.com/cosmos/cosmos-sdk/types/tx"
 	gogoproto "github.com/cosmos/gogoproto/proto"
 
+	gogotypes "github.com/cosmos/gogoproto/types"
+	datatypes "github.com/regen-network/regen-ledger/x/data/v3"
 	basetypes "github.com/regen-network/regen-ledger/x/ecocredit/v3/base/types/v1"
 	baskettypes "github.com/regen-network/regen-ledger/x/ecocredit/v3/basket/types/v1"
 	markettypes "github.com/regen-network/regen-ledger/x/ecocredit/v3/marketplace/types/v1"
@@ -34,6 +36,7 @@ type Line struct {
 	ID string `json:"id,omitempty"`
 	Ev M      `json:"ev,omitempty"`
 	St *State `json:"st,omitempty"`
+	Ds *DataState `json:"ds,omitempty"`
 	Ob M      `json:"ob,omitempty"`
 }
 
@@ -43,9 +46,12 @@ type Behaviour struct {
 	Unit    string          `json:"unit"`   // micro-credits per abstract unit
 	Render  int             `json:"render"` // decimal rendering profile
 	Seed    int64           `json:"seed"`
+	Family  string          `json:"family"` // "eco" (default) | "data"
 	Genesis json.RawMessage `json:"genesis"` // abstract state, or "default"
 	Weak    *WeakHash       `json:"weak,omitempty"`
 	Steps   []M             `json:"steps"`
+
+	weakResolved bool
 }
 
 type runner struct {
@@ -55,6 +61,14 @@ type runner struct {
 	prof  *Profile
 	lines []*Line
 	fatal string
+
+	// what a replica must reproduce: one entry per block (app hash) and per message (result digest)
+	digests []string
+	// replica mode: no projection, no trace; restarts at the block steps listed in restartAt (nil = as the behaviour says)
+	replica   bool
+	restartAt map[int]bool
+	blockSteps int
+	lastData   *DataState
 }
 
 func noneResp() M { return M{"none": true} }
@@ -64,7 +78,18 @@ func obsOf(notes *Notes) M {
 }
 
 func (r *runner) observe(ob M) *State {
+	if r.replica {
+		return nil
+	}
 	ctx := r.app.Ctx()
+	if r.b.Family == "data" {
+		ds, notes := r.app.ProjectData(ctx)
+		for k, v := range obsOf(notes) {
+			ob[k] = v
+		}
+		r.lastData = ds
+		return nil
+	}
 	st, notes := r.app.ProjectEco(ctx)
 	for k, v := range obsOf(notes) {
 		ob[k] = v
@@ -81,6 +106,15 @@ func (r *runner) run() {
 		b.Unit = "1000000"
 	}
 	r.prof = NewProfile(b.Unit, b.Render, b.Seed)
+	if b.Weak != nil && !b.weakResolved {
+		// the behaviour names content hashes; the hasher sees their real IRIs
+		nt := map[string][]int{}
+		for k, v := range b.Weak.Table {
+			nt[poolIRI(k)] = v
+		}
+		b.Weak.Table = nt
+		b.weakResolved = true
+	}
 	r.db = dbm.NewMemDB()
 	r.app = NewApp(r.db, b.Weak)
 
@@ -103,9 +137,21 @@ func (r *runner) run() {
 		return
 	}
 	_, p := r.app.BeginBlock(gi.Time)
+	if r.replica {
+		for _, m := range b.Steps {
+			r.step(cloneM(m))
+			if r.fatal != "" {
+				return
+			}
+		}
+		if h := r.app.CloseBlock(); h != "" {
+			r.digests = append(r.digests, "block:"+h)
+		}
+		return
+	}
 	ob := M{"panicked": p != "", "panic": p}
 	st := r.observe(ob)
-	r.lines = append(r.lines, &Line{K: "init", ID: b.ID, St: st, Ob: ob,
+	r.lines = append(r.lines, &Line{K: "init", ID: b.ID, St: st, Ds: r.lastData, Ob: ob,
 		Ev: M{"type": "Init", "m": M{"type": "Init"}, "ok": true, "resp": noneResp(), "signers": []string{}, "dom": "spec"}})
 
 	for _, m := range b.Steps {
@@ -114,6 +160,14 @@ func (r *runner) run() {
 			return
 		}
 	}
+}
+
+func cloneM(m M) M {
+	bz, err := json.Marshal(m)
+	must(err)
+	var out M
+	must(json.Unmarshal(bz, &out))
+	return out
 }
 
 func (r *runner) step(m M) {
@@ -127,12 +181,48 @@ func (r *runner) step(m M) {
 	ev := M{"type": typ, "m": m, "dom": dom, "resp": noneResp(), "signers": []string{}}
 	switch typ {
 	case "BeginBlock":
+		restart := false
+		if v, ok := m["restart"].(bool); ok {
+			restart = v
+		}
+		if r.restartAt != nil {
+			restart = r.restartAt[r.blockSteps]
+		}
+		r.blockSteps++
+		if restart && r.app.height > 0 {
+			// tear the application objects down at the block boundary and rebuild them over the same database
+			closed := r.app.CloseBlock()
+			na := NewApp(r.db, r.b.Weak)
+			na.header, na.blockTime = r.app.header, r.app.blockTime
+			r.app = na
+			if closed != "" {
+				r.digests = append(r.digests, "block:"+closed)
+			}
+		}
 		hash, p := r.app.BeginBlock(TickTime(int(num(m, "t"))))
+		if hash != "" {
+			r.digests = append(r.digests, "block:"+hash)
+		}
 		ob["panicked"] = p != ""
 		ob["panic"] = p
 		ob["closed_apphash"] = hash
 		ev["ok"] = p == ""
 		ev["signers"] = []string{"none"}
+	case "ExportImport":
+		ev["ok"] = true
+		ev["signers"] = []string{"none"}
+		if !r.replica {
+			r.exportImport(ob)
+		}
+	case "Query":
+		ev["ok"] = true
+		ev["signers"] = []string{"none"}
+	case "Replica":
+		ev["ok"] = true
+		ev["signers"] = []string{"none"}
+		if !r.replica {
+			r.replicas(ob, int(num(m, "n")))
+		}
 	default:
 		msg, err := r.prof.Concretise(m)
 		if err != nil {
@@ -146,6 +236,7 @@ func (r *runner) step(m M) {
 		ev["signers"] = signers
 		before := r.app.KVDigest()
 		res := r.app.Deliver(msg)
+		r.digests = append(r.digests, "tx:"+res.Digest)
 		after := r.app.KVDigest()
 		ev["ok"] = res.Code == 0
 		ob["code"] = res.Code
@@ -161,8 +252,14 @@ func (r *runner) step(m M) {
 			ev["resp"] = r.respOf(typ, res)
 		}
 	}
+	if r.replica {
+		return
+	}
 	st := r.observe(ob)
-	r.lines = append(r.lines, &Line{K: "step", Ev: ev, St: st, Ob: ob})
+	if typ == "Query" && st != nil {
+		r.queries(ob, int(num(m, "n")), st)
+	}
+	r.lines = append(r.lines, &Line{K: "step", Ev: ev, St: st, Ds: r.lastData, Ob: ob})
 }
 
 func firstLine(s string) string {
@@ -220,6 +317,28 @@ func (r *runner) respOf(typ string, res DeliverResult) M {
 			cs = append(cs, M{"denom": c.BatchDenom, "amt": CreditAmt(c.Amount)})
 		}
 		return M{"credits": cs}
+	case *datatypes.MsgAnchorResponse:
+		t := -999
+		if v.Timestamp != nil {
+			if tm, err := gogotypes.TimestampFromProto(v.Timestamp); err == nil {
+				t, _ = TimeTick(tm)
+			}
+		}
+		return M{"iri": abstractIRI(v.Iri), "t": t}
+	case *datatypes.MsgAttestResponse:
+		t := -999
+		if v.Timestamp != nil {
+			if tm, err := gogotypes.TimestampFromProto(v.Timestamp); err == nil {
+				t, _ = TimeTick(tm)
+			}
+		}
+		iris := []string{}
+		for _, i := range v.Iris {
+			iris = append(iris, abstractIRI(i))
+		}
+		return M{"iris": iris, "t": t}
+	case *datatypes.MsgDefineResolverResponse:
+		return M{"resolver_id": v.ResolverId}
 	case *markettypes.MsgSellResponse:
 		ids := []uint64{}
 		ids = append(ids, v.SellOrderIds...)
@@ -247,6 +366,9 @@ func walkAmts(v any, f func(*Amt)) {
 			walkAmts(e, f)
 		}
 	case *State:
+		if x == nil {
+			return
+		}
 		for _, t := range [][]map[string]any{x.Bal, x.Supply, x.Bbal, x.Orders, x.Coins, x.Csupply} {
 			walkAmts(t, f)
 		}
@@ -260,6 +382,7 @@ func (r *runner) normalise() {
 		for _, l := range r.lines {
 			walkAmts(l.St, f)
 			walkAmts(l.Ev, f)
+			walkAmts(l.Ob, f)
 		}
 	}
 	each(func(a *Amt) {
@@ -327,6 +450,13 @@ func runCLI(args []string) int {
 		out := fs.String("out", "", "implementation trace (ndjson)")
 		fs.Parse(args[1:])
 		return runFile(*in, *out)
+	}
+	if args[0] == "iri" {
+		fs := flag.NewFlagSet("iri", flag.ExitOnError)
+		in := fs.String("in", "", "cases (ndjson)")
+		out := fs.String("out", "", "results (ndjson)")
+		fs.Parse(args[1:])
+		return iriCLI(*in, *out)
 	}
 	fmt.Fprintln(os.Stderr, "unknown command", args[0])
 	return 2
